@@ -120,3 +120,24 @@ def inplace_lint(chk, repo, rule, paths, floor_funcs=1):
                key=f'{rule}|{path}', method='alias-aware augmented-assignment lint (fixture-checked)')
     if nfunc < floor_funcs:
         raise AnalysisError(f'in-place lint for {rule}: only {nfunc} functions scanned')
+
+
+def local_atoms_hook(mod, func, kinds=None):
+    """`global` hook for fragment interpretation: a name that is a local variable or parameter of `func` (and not a module-level definition) but that the
+    fragment's frame does not define evaluates to a free atom named after it.  A fragment that starts to read another local of its function is then still
+    analysed (the atom shows up in the residual) instead of stopping the analysis."""
+    names = {a.arg for a in func.args.args + func.args.kwonlyargs}
+    for n in ast.walk(func):
+        if isinstance(n, ast.Name) and isinstance(n.ctx, ast.Store):
+            names.add(n.id)
+    facts = getattr(mod, 'facts', None)
+    if facts is not None:
+        end = getattr(func, 'end_lineno', 10 ** 9)
+        for (nm, ln), typ in facts.vars.items():
+            if func.lineno <= ln <= end: names.add(nm)
+
+    def hook(itp, m, nm):
+        if m is mod and nm in names and nm not in mod.defs:
+            return X.atom(f'local:{nm}', (kinds or {}).get(nm, 'pos'))
+        return None
+    return hook
